@@ -32,4 +32,10 @@ def serdeDe (N : Nullable T) (o : Option T) : Res T := tryFrom N o
 /-- Serde serialisation target: `None` is written as null, otherwise the value. -/
 def serdeSer (N : Nullable T) (v : T) : Option T := get N v
 
+/-- The two instances the repository ships and the correspondence runs: `Address` (32 bytes, none is
+    the all-zero address) and the 64-bit integer instance of the tests (none is 0; its memory and
+    Borsh encoding is `toLe 8`). -/
+def addrN : Nullable Bytes := ⟨Bytes.zeros 32⟩
+def u64N : Nullable Nat := ⟨0⟩
+
 end PodOption
